@@ -2,6 +2,7 @@ package main
 
 import (
 	"fmt"
+	"os"
 	"sort"
 	"strings"
 	"unsafe"
@@ -21,6 +22,7 @@ type selfState struct {
 	x, y   int
 	out    []string
 	mu, m2 vsync.Mutex
+	rw     vsync.RWMutex
 	wg     vsync.WaitGroup
 	flag   bool
 	racy   int
@@ -39,6 +41,9 @@ func selfExplore(name string, body func(st *selfState), bound int, delay, prune,
 			st := s.(*selfState)
 			if ex.Verdict != "" {
 				verdicts[ex.Verdict] = true
+				if ex.Verdict == "crash" && os.Getenv("HX_DEBUG") != "" {
+					fmt.Fprintln(os.Stderr, "self crash:", name, ex.Crash)
+				}
 			} else {
 				outcomes[fmt.Sprint(st.x, st.y, st.out)] = true
 			}
@@ -206,6 +211,29 @@ func selfTest(c *hx.Ctx) {
 	if n != 0 {
 		fail("accesses ordered by spawn / mutex / WaitGroup: %d race pairs reported, want 0", n)
 	}
+	// 5b. slice elements: append into spare capacity of a shared backing array races with a reader of
+	// that element; accesses to different elements do not
+	sliceRace := func(st *selfState) {
+		back := make([]int, 1, 2)
+		long := back[:2]
+		spawn2(st,
+			func() { _ = vsched.Append(back, 900011, 7) },
+			func() { _ = vsched.RE(long, 1, 900012) })
+	}
+	_, _, n, _ = selfExplore("slice-race", sliceRace, 0, false, true, true)
+	if n != 1 {
+		fail("append into shared spare capacity vs element read: %d race pairs reported, want 1", n)
+	}
+	sliceOK := func(st *selfState) {
+		s := make([]int, 2)
+		spawn2(st,
+			func() { vsched.WE(s, 0, 900013); s[0] = 1 },
+			func() { _ = vsched.RE(s, 1, 900014); vsched.REr(s, 1, 900015) })
+	}
+	_, _, n, _ = selfExplore("slice-disjoint", sliceOK, 0, false, true, true)
+	if n != 0 {
+		fail("accesses to different slice elements: %d race pairs reported, want 0", n)
+	}
 	// 6. pruning must not lose outcomes: 3 threads appending under a lock, all 6 orders reachable
 	three := func(st *selfState) {
 		app := func(s string) func() {
@@ -307,9 +335,85 @@ func selfTest(c *hx.Ctx) {
 	if !v["deadlock"] {
 		fail("lost wake-up pattern: verdicts %q, want a deadlock in some schedule", keys(v))
 	}
+	// 7b. RWMutex prefers writers: a recursive read lock deadlocks against a writer that announced itself
+	// in between; a plain reader/writer pair never does
+	rwRec := func(st *selfState) {
+		vsched.Go(func() { st.rw.Lock(); st.x++; st.rw.Unlock() })
+		st.rw.RLock()
+		st.rw.RLock()
+		st.rw.RUnlock()
+		st.rw.RUnlock()
+		vsched.WaitOthersDone()
+	}
+	o, v, _, _ = selfExplore("rw-recursive", rwRec, 2, false, true, false)
+	if !v["deadlock"] || !o["1 0 []"] {
+		fail("recursive RLock vs Lock: outcomes %q verdicts %q, want a deadlock in some schedule and x=1 in others", keys(o), keys(v))
+	}
+	rwPlain := func(st *selfState) {
+		vsched.Go(func() { st.rw.Lock(); st.x++; st.rw.Unlock() })
+		vsched.Go(func() { st.rw.RLock(); st.y = st.x; st.rw.RUnlock() })
+		st.rw.RLock()
+		st.rw.RUnlock()
+		vsched.WaitOthersDone()
+	}
+	o, v, _, _ = selfExplore("rw-plain", rwPlain, 3, false, true, false)
+	if len(v) != 0 || keys(o) != "1 0 [] | 1 1 []" {
+		fail("reader / writer / reader: outcomes %q verdicts %q, want y in {0,1}, no verdict", keys(o), keys(v))
+	}
+	// 8. condition variable and Once shims
+	condOK := func(st *selfState) {
+		cv := vsync.NewCond(&st.mu)
+		vsched.Go(func() {
+			st.mu.Lock()
+			st.flag = true
+			st.mu.Unlock()
+			cv.Broadcast()
+		})
+		st.mu.Lock()
+		for !st.flag {
+			cv.Wait()
+		}
+		st.x = 7
+		st.mu.Unlock()
+		vsched.WaitOthersDone()
+	}
+	o, v, _, _ = selfExplore("cond-ok", condOK, 3, false, true, false)
+	if keys(o) != "7 0 []" || len(v) != 0 {
+		fail("condition variable, flag set under the lock: outcomes %q verdicts %q, want x=7 and no verdict", keys(o), keys(v))
+	}
+	condLost := func(st *selfState) {
+		cv := vsync.NewCond(&st.mu)
+		vsched.Go(func() { cv.Signal() }) // signals without setting a flag under the lock: can come too early
+		st.mu.Lock()
+		cv.Wait()
+		st.mu.Unlock()
+	}
+	_, v, _, _ = selfExplore("cond-lost", condLost, 2, false, true, false)
+	if !v["deadlock"] {
+		fail("signal before wait: verdicts %q, want a deadlock in some schedule", keys(v))
+	}
+	onceBody := func(st *selfState) {
+		var once vsync.Once
+		f := func() {
+			once.Do(func() {
+				vsched.Obs()
+				st.x++
+			})
+			st.mu.Lock()
+			st.y += st.x
+			st.mu.Unlock()
+		}
+		vsched.Go(f)
+		vsched.Go(f)
+		vsched.WaitOthersDone()
+	}
+	o, v, _, _ = selfExplore("once", onceBody, 3, false, true, false)
+	if keys(o) != "1 2 []" || len(v) != 0 {
+		fail("two callers of Once.Do: outcomes %q verdicts %q, want x=1 y=2 (the second caller waits for the first)", keys(o), keys(v))
+	}
 	c.Res.Execs += ep + en
-	c.Res.AddExtra("cases", 19)
-	c.Res.Sample("19 known-answer scenarios: channel ping / no sender / full buffer / select / lost wake-up, lost update (bounds 0/1, delay 1), locked update, AB-BA deadlock, WaitGroup negative / stuck, fair spin loop, endless spin loop, race monitor positive / negative, pruning vs no pruning")
+	c.Res.AddExtra("cases", 26)
+	c.Res.Sample("26 known-answer scenarios: RWMutex writer preference (recursive read lock deadlock / plain), slice-element race / no race, condition variable (flag under lock / lost signal), Once, channel ping / no sender / full buffer / select / lost wake-up, lost update (bounds 0/1, delay 1), locked update, AB-BA deadlock, WaitGroup negative / stuck, fair spin loop, endless spin loop, race monitor positive / negative, pruning vs no pruning")
 }
 
 func init() {
